@@ -532,6 +532,13 @@ func (t *wScreen) SetTitle(title string) {
 	js.Global().Call("setTitle", title)
 }
 
+// SetClipboard is part of the Screen interface; the web page's clipboard
+// is not reachable from here, so this does nothing.
+func (t *wScreen) SetClipboard(data []byte) {}
+
+// GetClipboard is part of the Screen interface; see SetClipboard.
+func (t *wScreen) GetClipboard() {}
+
 // WebKeyNames maps string names reported from HTML
 // (KeyboardEvent.key) to tcell accepted keys.
 var WebKeyNames = map[string]Key{
